@@ -146,7 +146,8 @@ class BackslashNode(IndentationNode):
 
 
 def _is_magic_name(name):
-    return name.value.startswith('__') and name.value.endswith('__')
+    # Targets like `x.y` or `x[0]` are not names.
+    return name.type == 'name' and name.value.startswith('__') and name.value.endswith('__')
 
 
 class PEP8Normalizer(ErrorFinder):
